@@ -56,6 +56,15 @@ static uint64_t rnd(struct rng* r) { uint64_t z = (r->s += 0x9E3779B97F4A7C15ull
 static uint64_t fnv(uint64_t h, const void* p, size_t n) { const unsigned char* b = p; for (size_t i = 0; i < n; i++) h = (h ^ b[i]) * 1099511628211ull; return h; }
 
 static size_t gen(struct rng* r, unsigned char* b, int depth) {
+  switch (rnd(r) % (depth <= 0 ? 9 : 13)) {
+    case 9: case 5: if (depth > 0) goto containers; /* fallthrough for leaves */
+      b[0] = 0xf9; b[1] = (unsigned char)rnd(r); b[2] = (unsigned char)rnd(r); if ((b[1] & 0x7c) == 0x7c) b[1] &= 0x3f; return 3;       /* half float */
+    case 6: if (depth > 0) goto containers; b[0] = 0xfa; for (int i = 0; i < 4; i++) b[1 + i] = (unsigned char)rnd(r); b[1] &= 0x3f; return 5;
+    case 7: if (depth > 0) goto containers; { size_t l = rnd(r) % 40; b[0] = 0x58; b[1] = (unsigned char)l; for (size_t i = 0; i < l; i++) b[2 + i] = (unsigned char)rnd(r); return 2 + l; }
+    case 8: if (depth > 0) goto containers; b[0] = (unsigned char)(0x20 + rnd(r) % 24); return 1;
+    default: break;
+  }
+  containers:
   switch (rnd(r) % (depth <= 0 ? 5 : 9)) {
     case 0: b[0] = (unsigned char)(rnd(r) % 24); return 1;
     case 1: b[0] = 0x19; b[1] = (unsigned char)rnd(r); b[2] = (unsigned char)rnd(r); return 3;
